@@ -894,8 +894,10 @@ where
             }
         }
         Expression::Assignment(x) => {
+            // evaluate the left-hand reference prior to the right-hand value as JavaScript does
+            let left = walk_expr(ctx, locals, x.left, source, visitor, diagnostics)?;
             let right = walk_rvalue(ctx, locals, x.right, source, visitor, diagnostics)?;
-            match walk_expr(ctx, locals, x.left, source, visitor, diagnostics)? {
+            match left {
                 Intermediate::Local(l, k) => match k {
                     LexicalDeclarationKind::Let => diagnostics
                         .consume_expr_err(
